@@ -10,7 +10,7 @@ rm -rf $WT $OUT; mkdir -p /tmp/seedwt $OUT/evidence $OUT/work/replays
 git -C /repo worktree add -q --detach $WT HEAD || exit 2
 trap 'git -C /repo worktree remove --force $WT; git -C /repo worktree prune' EXIT
 git -C $WT apply "$P" || { echo "$N: patch does not apply"; exit 2; }
-cd /verif
+cd "$(dirname "$(readlink -f "$0")")/.."
 for p in "$@"; do
   VERIF_REPO=$WT VERIF_OUT=$OUT timeout 2400 bin/check $p > $OUT/$p.out 2>&1
   echo "$N :: $p rc=$? $(grep -c VIOLATION $OUT/$p.out) $(grep -m1 VIOLATION $OUT/$p.out | cut -c1-160)"
